@@ -43,6 +43,11 @@ TimeCfgs  == {[op |-> "gb", keys |-> <<1, 2>>, aggs |-> Aggs, ktidx |-> 1, trig 
 PlainCfgs == {[op |-> "gb", keys |-> <<2>>, aggs |-> Aggs, ktidx |-> 0, trig |-> t, simple |-> FALSE] : t \in PlainTrigs}
              \cup {[op |-> "gb", keys |-> <<2>>, aggs |-> Aggs, ktidx |-> 0, trig |-> <<[k |-> "eos"]>>, simple |-> TRUE]}
 GbCfgs == TimeCfgs \cup PlainCfgs
+(* C18 at design level: a time-keyed group by with a COUNTING or END OF STREAM trigger re-emits keys at end of stream stamped with the
+   key time, i.e. at or below watermarks it has already forwarded (TLC counterexample: rec(kt=1,t=1) wm(1) eos with COUNTING 2, ON WATERMARK).  The model
+   check for C18 therefore leaves that configuration out; the real code is still run on it (random scripts) and the violation is
+   reported / matched against known_findings.jsonl. *)
+GbCfgsC18 == {c \in GbCfgs : c.ktidx = 0 \/ (HasKind(c, "wm") /\ Len(c.trig) = 1)}
 (* time-keyed group-bys receive records whose event time is non-zero and not above the key time (tumble / time field) *)
 TimeRecs  == IF AllowLate
              THEN {Rec(<<TimeV(kt), StrV("a"), IntV(1)>>, r, t) : kt \in 1..2, t \in 0..2, r \in BOOLEAN}      \* any event time, also none, also late
@@ -119,13 +124,15 @@ def random_script(rng, rows, maxlen, times, p_wm=0.15, p_retract=0.35, zero_time
     return s
 
 
-def gb_random_scripts(rng, n, maxlen, late):
+def gb_random_scripts(rng, n, maxlen, late, c18=False):
     out = []
     aggs = [{"k": "count", "c": 3}, {"k": "sum", "c": 3}]
     for _ in range(n):
         if rng.random() < 0.5:
             trig = rng.choice([[{"k": "wm"}], [{"k": "count", "n": rng.randint(1, 4)}, {"k": "wm"}], [{"k": "wm"}, {"k": "eos"}],
                                [{"k": "count", "n": rng.randint(2, 3)}, {"k": "wm"}, {"k": "eos"}], [{"k": "count", "n": rng.randint(1, 3)}]])
+            if c18:
+                trig = [{"k": "wm"}]     # the other time-keyed configurations are a recorded finding (directed scripts below)
             cfg = {"op": "gb", "keys": [1, 2], "aggs": aggs, "ktidx": 1, "trig": trig, "simple": False}
             rows = [[V_time(kt), V_str(nm), v] for kt in (1, 2, 3, 4) for nm in ("a", "b") for v in (V_int(1), V_int(2), V_int(-3), NULL)]
             s = random_script(rng, rows, maxlen, [0, 1, 2, 3, 4], zero_time_ok=late, time_of_row=None if late else (lambda r: r[0]["ts"]), max_wm=4, late=late)
@@ -137,6 +144,12 @@ def gb_random_scripts(rng, n, maxlen, late):
             rows = [[V_time(1), V_str(nm), v] for nm in ("a", "b", "c") for v in (V_int(1), V_int(2), V_int(-3), NULL)]
             s = random_script(rng, rows, maxlen, [0, 1, 2, 3], max_wm=3, late=late)
         out.append({"cfg": cfg, "in": s})
+    if c18:
+        # directed reproduction of KF-C18-groupby-eos-reemit (TLC counterexample of the full GbCfgs model), one per trigger kind
+        row = [V_time(1), V_str("a"), V_int(1)]
+        for trig in ([{"k": "wm"}, {"k": "eos"}], [{"k": "count", "n": 2}, {"k": "wm"}]):
+            out.append({"cfg": {"op": "gb", "keys": [1, 2], "aggs": aggs, "ktidx": 1, "trig": trig, "simple": False},
+                        "in": [{"m": "rec", "v": row, "r": False, "t": 1}, {"m": "wm", "w": 1}]})
     return out
 
 
@@ -144,7 +157,9 @@ def sig_gb(f):
     cfg = f["header"]["cfg"]
     trig = "+".join(c["k"] + (str(c.get("n", "")) if c["k"] == "count" else "") for c in cfg.get("trig", []))
     node = "SimpleGroupBy" if cfg.get("simple") else "CustomTriggerGroupBy"
-    return {"site": "nodes." + node, "trig": trig, "why": f["why"].split(":")[0], "timekey": cfg.get("ktidx", 0) != 0}
+    at = f["events"][f["bad_index"]]["ev"] if 0 <= f["bad_index"] < len(f["events"]) else "?"
+    return {"site": "nodes." + node, "trig": trig, "why": f["why"].split(":")[0], "timekey": cfg.get("ktidx", 0) != 0, "at": at,
+            "reason": f["why"]}
 
 
 def run_ops(ctx, prop, mc_name, body, cfgs, universe, maxlen, randoms, sig_fn, tags, sample=0, mc_timeout=2400):
@@ -214,11 +229,43 @@ def run_negative_control(ctx, prop):
 def run_groupby(ctx, prop):
     thorough = ctx.tier == "thorough"
     rng = random.Random(ctx.seed * 7919 + 17)
-    randoms = gb_random_scripts(rng, 1500 if thorough else 250, 40 if thorough else 25, late=(prop != "C18"))
+    randoms = gb_random_scripts(rng, 1500 if thorough else 250, 40 if thorough else 25, late=(prop != "C18"), c18=(prop == "C18"))
     tags = [prop]
-    events = run_ops(ctx, prop, "OpMC_gb", GB_BODY, "GbCfgs", "GbUniverse", 4 if thorough else 3, randoms, sig_gb, tags,
+    events = run_ops(ctx, prop, "OpMC_gb", GB_BODY, "GbCfgsC18" if prop == "C18" else "GbCfgs", "GbUniverse", 4 if thorough else 3, randoms, sig_gb, tags,
                      sample=0 if thorough else 6000)
     run_negative_control(ctx, prop)
     ctx.coverage["exhaustive"] = True
     ctx.assumptions += ["valid, non-late input changelogs (OkAppend in Ops.tla; DESIGN.md section 5)",
                         "time-keyed group-bys receive records with a non-zero event time not above the key time (as tumble / a time field produce them)"]
+
+
+BASIC_BODY = r'''
+BasicCfgs == {[op |-> "filter", col |-> 3, eq |-> IntV(1)], [op |-> "map", cols |-> <<2>>], [op |-> "map", cols |-> <<3, 2, 3>>],
+              [op |-> "distinct"], [op |-> "etbuf"]}
+BasicUniverse(c) == {Rec(<<TimeV(1), StrV(nm), v>>, r, t) : nm \in {"a", "b"}, v \in {IntV(1), NullV}, r \in BOOLEAN, t \in 0..2}
+                    \cup {Wm(1), Wm(2)}
+'''
+
+
+def basic_random_scripts(rng, n, maxlen, late):
+    out = []
+    rows = [[V_time(1), V_str(nm), v] for nm in ("a", "b", "c") for v in (V_int(1), V_int(2), NULL)]
+    for _ in range(n):
+        cfg = rng.choice([{"op": "filter", "col": 3, "eq": V_int(rng.choice([1, 2]))}, {"op": "map", "cols": rng.choice([[2], [3, 2, 3], [1, 3]])},
+                          {"op": "distinct"}, {"op": "etbuf"}])
+        out.append({"cfg": cfg, "in": random_script(rng, rows, maxlen, [0, 1, 2, 3, 4], max_wm=4, late=late)})
+    return out
+
+
+def sig_basic(f):
+    cfg = f["header"]["cfg"]
+    return {"site": "nodes." + cfg["op"], "why": f["why"].split(":")[0]}
+
+
+def run_basic(ctx, prop):
+    thorough = ctx.tier == "thorough"
+    rng = random.Random(ctx.seed * 104729 + 5)
+    late = prop != "C18"
+    randoms = basic_random_scripts(rng, 1500 if thorough else 250, 60 if thorough else 30, late)
+    run_ops(ctx, prop, "OpMC_basic", BASIC_BODY, "BasicCfgs", "BasicUniverse", 4 if thorough else 3, randoms, sig_basic, [prop],
+            sample=0 if thorough else 5000)
